@@ -5,6 +5,7 @@ COMMON_TB = [
  "the hand-written model coq/ModelCipher.v, ModelCtr.v, ModelCpu.v, Api.v is tied to the C code by the correspondence check only (differential runs of the extracted model against the library built from /repo's working tree)",
  "extraction: Require Extraction + ExtrOcamlBasic only (bool, option, unit, list, prod, sumbool mapped to OCaml's); no Extract Constant/Inductive of our own; N, positive, nat stay extracted inductives; OCaml 4.13.1; harness/model_main.ml (parser/printer glue)",
  "harness/driver.c, checks/*.py (generators, comparison), gcc 12 / clang 14, sanitizer run-times, ld --wrap for allocator events",
+ "ties T/W (where the check uses them): translator/c2ir.py, translator/c2sir.py, translator/whole.py, clang 14's typed AST; coq/IR.v's evaluator and coq/SIR.v's reference interpreter as the rendering of the C subset on a little-endian LP64 host; the declared public struct fields (rounds, offset, parallel_size) and pointer fields (ctx, vtable); vm_compute / vm_cast_no_check in every reflective obligation",
 ]
 TRUSTED = {"*": COMMON_TB}
 ASSUME = {"*": ["little-endian x86-64 host", "the compilers preserve source semantics for the builds exercised",
